@@ -30,16 +30,20 @@ func (c Cfg) Coq() string {
 // "stays open without data" (distinct from io.EOF).
 var ErrSentinel = errors.New("verif-sentinel: no more input")
 
-// Src yields its bytes (as much as fits per Read) and then Final.
+// Src yields its bytes (at most Chunk per Read when Chunk > 0, else as much as fits) and then Final.
 type Src struct {
 	B     []byte
 	Final error
+	Chunk int
 	Given int
 }
 
 func (s *Src) Read(p []byte) (int, error) {
 	if len(s.B) == 0 {
 		return 0, s.Final
+	}
+	if s.Chunk > 0 && len(p) > s.Chunk {
+		p = p[:s.Chunk]
 	}
 	n := copy(p, s.B)
 	s.B = s.B[n:]
@@ -122,9 +126,10 @@ func kvs(a []fasthttp.VerifKV) string {
 	return hlib.List(it)
 }
 
-// ReadReq runs RequestHeader.Read over a bufio.Reader of size bsize on input, the source failing with final afterwards.
-func ReadReq(cfg Cfg, bsize int, input []byte, final error) (o Out) {
-	src := &Src{B: append([]byte(nil), input...), Final: final}
+// ReadReq runs RequestHeader.Read over a bufio.Reader of size bsize on input delivered chunk bytes at a time (0 = at once),
+// the source failing with final afterwards.
+func ReadReq(cfg Cfg, bsize, chunk int, input []byte, final error) (o Out) {
+	src := &Src{B: append([]byte(nil), input...), Final: final, Chunk: chunk}
 	br := bufio.NewReaderSize(src, bsize)
 	var h fasthttp.RequestHeader
 	if cfg.DisableNorm {
@@ -147,15 +152,15 @@ func ReadReq(cfg Cfg, bsize int, input []byte, final error) (o Out) {
 	}
 	s := fasthttp.VerifReqHeadState(&h)
 	o.Class = "ok"
-	o.Coq = fmt.Sprintf("(TOk {| meth := %s; target := %s; proto := %s; http11 := %s; fields := %s; host := %s; ctype := %s; ua := %s; content_length := %s; cl_bytes := %s; conn_close := %s; trailer := %s |} %s)",
+	o.Coq = fmt.Sprintf("(TOk {| meth := %s; target := %s; proto := %s; http11 := %s; fields := %s; host := %s; ctype := %s; ua := %s; content_length := %s; cl_bytes := %s; conn_close := %s; trailer := %s; raw_headers := %s |} %s)",
 		hlib.Hex(s.Method), hlib.Hex(s.URI), hlib.Hex(s.Proto), hlib.Bool(!s.NoHTTP11), kvs(s.H), hlib.Hex(s.Host), hlib.Hex(s.CT), hlib.Hex(s.UA),
-		hlib.Z(int64(s.CL)), hlib.Hex(s.CLBytes), hlib.Bool(s.Close), hlib.HexList(s.Trailer), hlib.Nat(o.Consumed))
+		hlib.Z(int64(s.CL)), hlib.Hex(s.CLBytes), hlib.Bool(s.Close), hlib.HexList(s.Trailer), hlib.Hex(s.Raw), hlib.Nat(o.Consumed))
 	return o
 }
 
 // ReadResp is the response counterpart.
-func ReadResp(cfg Cfg, bsize int, input []byte, final error) (o Out) {
-	src := &Src{B: append([]byte(nil), input...), Final: final}
+func ReadResp(cfg Cfg, bsize, chunk int, input []byte, final error) (o Out) {
+	src := &Src{B: append([]byte(nil), input...), Final: final, Chunk: chunk}
 	br := bufio.NewReaderSize(src, bsize)
 	var h fasthttp.ResponseHeader
 	if cfg.DisableNorm {
